@@ -148,7 +148,7 @@ package ptracer
 
 // One wait event. Verdicts follow the README status table for the main process (pid == pgid);
 // an exit or a fatal signal of any other process leaves the run going with status Normal.
-//@ func ptracer.(*ptraceHandle).handle props C03 C09 C15
+//@ func ptracer.(*ptraceHandle).handle props C03 C08 C09 C15
 //@   arith bv
 //@   requires ph.Tracer != nil && ph.Tracer.Handler != nil && ph.traced != nil
 //@   requires forall q int :: has(ph.traced, q) && ph.traced[q] ==> T.options[q] == 1048734
@@ -156,10 +156,10 @@ package ptracer
 //@   assigns ph.execved, ph.fTime, mapof(ph.traced), T.cont_count, T.options, T.setregs_count, T.setregs_orig_rax, T.setregs_rax, T.setregs_pid, UseVMReadv, Q._all
 //@   ensures @C09 pid == old(ph.pgid) && ws_exited(uint32(wstatus)) && old(ph.execved) ==> finished && int(status) == status_of_exit(ws_exitcode(uint32(wstatus))) && exitStatus == ws_exitcode(uint32(wstatus))
 //@   ensures @C09 @C15 pid == old(ph.pgid) && ws_exited(uint32(wstatus)) && !old(ph.execved) ==> finished && int(status) == 8 && len(errStr) > 0
-//@   ensures @C09 pid == old(ph.pgid) && ws_signaled(uint32(wstatus)) ==> int(status) == status_of_signal(ws_termsig(uint32(wstatus))) && exitStatus == ws_termsig(uint32(wstatus))
+//@   ensures @C08 @C09 pid == old(ph.pgid) && ws_signaled(uint32(wstatus)) ==> int(status) == status_of_signal(ws_termsig(uint32(wstatus))) && exitStatus == ws_termsig(uint32(wstatus))
 //@   ensures @C09 pid != old(ph.pgid) && (ws_exited(uint32(wstatus)) || ws_signaled(uint32(wstatus))) ==> int(status) == 1 && !finished
-//@   ensures @C09 ws_stopped(uint32(wstatus)) && ws_stopsig(uint32(wstatus)) == 24 && int(status) != 8 ==> int(status) == 2
-//@   ensures @C09 ws_stopped(uint32(wstatus)) && ws_stopsig(uint32(wstatus)) == 25 && int(status) != 8 ==> int(status) == 4
+//@   ensures @C08 @C09 ws_stopped(uint32(wstatus)) && ws_stopsig(uint32(wstatus)) == 24 && int(status) != 8 ==> int(status) == 2
+//@   ensures @C08 @C09 ws_stopped(uint32(wstatus)) && ws_stopsig(uint32(wstatus)) == 25 && int(status) != 8 ==> int(status) == 4
 //@   ensures @C15 int(status) == 8 ==> len(errStr) > 0 && ((pid == old(ph.pgid) && ws_exited(uint32(wstatus)) && !old(ph.execved)) || (ws_stopped(uint32(wstatus)) && !old(has(ph.traced, pid) && ph.traced[pid])))
 //@   ensures @C03 int(status) != 1 && !ws_signaled(uint32(wstatus)) ==> T.cont_count == old(T.cont_count)
 //@   ensures @C15 ws_stopped(uint32(wstatus)) && int(status) == 1 ==> !finished && T.cont_count == old(T.cont_count) + 1
